@@ -9,6 +9,7 @@ from __future__ import annotations
 
 import random
 
+import httpcore
 from ..workload import Workload, gen_spec
 from ..world import run_flavor, exc_name, documented
 from .c01 import fingerprint
@@ -72,10 +73,13 @@ def gen_h2_spec(r: random.Random, flavor: str) -> dict:
             if act["do"] == "settings" and int(act["settings"]["3"]) < 2:
                 act["settings"]["3"] = 2
     spec = gen_spec(r, flavor, proto="h2", proxy=None, n_origins=1, max_connections=1, n_callers=n, reqs=reqs, snipes=False,
-                    behaviours=["read", "read", "read", "partial", "head-only", "post"], fault_ops=[], latency="zero",
+                    behaviours=["read", "read", "read", "partial", "head-only", "post", "bad-head"], fault_ops=[], latency="zero",
                     think=r.choice([0.0, 0.0, 0.2]) if "defer" not in script else 0.0, pool_timeout=None, resp_delay=resp_delay,
                     max_keepalive=None, keepalive_expiry=None, h2_script=script, retries=0, connect_fail=0.0,
                     segmentation=r.choice(["all", "all", "random", "bytes"]))
+    if "hold" in script or "defer" in script:
+        # the server's script waits for particular requests to arrive: every caller must really send one
+        spec["behaviours"] = [b for b in spec["behaviours"] if b != "bad-head"]
     spec["action_kinds"] = kinds
     if script["data_chunk"] < 100 or spec["segmentation"] == "bytes":
         spec["max_body"] = 500  # tiny frames / 7-byte reads: keep the number of operations per workload bounded
@@ -142,7 +146,9 @@ def run_case(case):
                 if rec.get("end") == "ok":
                     cnt["requests_ok"] += 1
                 elif rec.get("end") == "exc":
-                    if rec["token"] in reset_tokens:
+                    if rec["beh"] == "bad-head" and isinstance(rec["exc"], httpcore.LocalProtocolError):
+                        cnt["requests_rejected_locally"] = cnt.get("requests_rejected_locally", 0) + 1
+                    elif rec["token"] in reset_tokens:
                         cnt["requests_reset"] += 1
                         if not documented(rec["exc"]):
                             v("reset-stream-undocumented-exception:" + exc_name(rec["exc"]), repr(rec["exc"]), {"spec": spec})
